@@ -1,5 +1,6 @@
 """C10 — ITS codec is exact canonical Solidity ABI and never misdecodes (structural part)."""
 from rk import *
+from guards import negate
 from rules.itslib import *
 
 EXPLAIN = ('ITS abi module (structural, necessary clauses): (R1) every alloy decode call in the crate (abi_decode_params / '
@@ -11,7 +12,8 @@ EXPLAIN = ('ITS abi module (structural, necessary clauses): (R1) every alloy dec
            'low 16 bytes only behind the guards high128 == 0 and low128 >= 0; encoding converts through a trapping try_into; '
            '(R6) the message type is read from payload[0..32] only behind len >= 32 and every struct decode lies behind it; '
            '(R7) panic inventory: every leaf reachable from the two decoders is on the allow-list (no-panic, or guarded as listed); '
-           '(R8) empty bytes decode to None and None encodes to empty bytes.')
+           '(R8) empty bytes decode to None and None encodes to empty bytes; (R9) refusal inventory of the decoders: no input-dependent '
+           'refusal besides length, type, canonicity and the amount range.')
 NOT_DECIDED = ('that alloy-sol-types\' output is byte-for-byte the Solidity ABI and that validate=true rejects every non-canonical '
                'encoding (T7): the core bit-exactness/canonicity statement is NOT decided by this check.')
 ASSUME = ['T6', 'T7']
@@ -306,6 +308,27 @@ def check(P, rep):
                     for name, gs in (() if lib_idiom else (('high 128 bits == 0', hi), ('low 128 bits >= 0', lo))):
                         ok, _, w = mg(g, [n], (), edges(gs)) if gs else (False, None, None)
                         rep.check(ok, 'C10.R5', 'decode:amount-guard:' + name.split(' ')[0], 'an InterchainTransfer is built only behind: amount ' + name, site(g, root, d['bb']), None, w)
+        # R9 refusal inventory: "decoding that encoding returns the same message" - the decoder refuses an input only because it is too
+        # short, of an unknown type, not a canonical ABI encoding (the library's own Err) or because the amount does not fit: any other
+        # input-dependent refusal (e.g. a business rule such as amount > 0 mirrored into the codec) rejects encodings of valid messages
+        def expected_refusal(c_):
+            n_ = negate(c_)       # the condition under which decoding goes on
+            if n_[0] == 'cmp' and n_[1] == 'le' and const_int(core(n_[2])) == 32 and core(n_[3])[0] == 'call' and core(n_[3])[1].endswith('[u8]>::len'):
+                return True       # too short for the type word
+            if n_[0] == 'cmp' and n_[1] == 'eq' and ((const_int(core(n_[3])) == 0 and is_half(n_[2], 'RangeFrom')) or (const_int(core(n_[2])) == 0 and is_half(n_[3], 'RangeFrom'))):
+                return True       # amount >= 2^128
+            if n_[0] == 'cmp' and n_[1] == 'le' and const_int(core(n_[2])) == 0 and is_half(n_[3], 'RangeTo'):
+                return True       # amount >= 2^127
+            if n_[0] == 'cmp' and n_[1] == 'eq' and n_[2][0] == 'elem' and is_hi_slice(n_[2][1]) and const_int(core(n_[3])) == 0:
+                return True       # amount >= 2^128, byte by byte
+            return False
+        for gd in rejecting_edges(g):
+            c_ = gd.cond
+            okr = expected_refusal(c_)
+            if not okr and c_[0] in ('present', 'absent'):
+                okr = True      # a library lookup failing (from_utf8 / try_from / first_chunk ...): decided by the library, not a comparison of ours
+            rep.check(okr, 'C10.R9', 'decode:%s:unexpected-refusal:%s' % (level, fmt(c_)[:60]),
+                      'the decoder refuses an input only for being too short, of an unknown type, non-canonical or out of the amount range', site(g, gd.ctx, gd.bb), fmt(c_)[:240])
         # R8 decode side
         for vname, f in builds:
             for ob in ('data', 'minter'):
@@ -409,16 +432,19 @@ def is_len_of(t, fld):
     return False
 
 
+def is_hi_slice(x):
+    """amount_le_bytes[16..] of the decoded InterchainTransfer amount"""
+    x = core(x)
+    if not (x[0] == 'call' and 'core::ops::RangeFrom<usize>> for [u8]>::index' in x[1]):
+        return False
+    rng = fields_of(core(x[2][1])) or {}
+    amt = core(x[2][0])
+    return const_int(core(rng.get('start', ('u',)))) == 16 and amt[0] == 'field' and amt[1] == 'amount' and decode_call(amt[2], 'InterchainTransfer') is not None
+
+
 def all_zero_high_half(g):
     """the other spelling of 'the high 128 bits are zero': `le_bytes[16..].iter().all(|b| b == 0)`.  Returns the exhausted-edges of a
     loop over amount_le_bytes[16..] whose every iteration can only continue through `element == 0`"""
-    def is_hi_slice(x):
-        x = core(x)
-        if not (x[0] == 'call' and 'core::ops::RangeFrom<usize>> for [u8]>::index' in x[1]):
-            return False
-        rng = fields_of(core(x[2][1])) or {}
-        amt = core(x[2][0])
-        return const_int(core(rng.get('start', ('u',)))) == 16 and amt[0] == 'field' and amt[1] == 'amount' and decode_call(amt[2], 'InterchainTransfer') is not None
     done = guard_sel(g, lambda c_: c_[0] == 'absent' and c_[1][0] == 'next' and is_hi_slice(c_[1][1]))
     more = guard_sel(g, lambda c_: c_[0] == 'present' and c_[1][0] == 'next' and is_hi_slice(c_[1][1]))
     zero = guard_sel(g, lambda c_: c_[0] == 'cmp' and c_[1] == 'eq' and c_[2][0] == 'elem' and is_hi_slice(c_[2][1]) and const_int(core(c_[3])) == 0)
